@@ -338,6 +338,10 @@ def run(repo, rep):
             all(k.arg == "dtype" and norm(k.value) in ("np.uint8", "numpy.uint8") for k in v.keywords) and len(v.args) == 1
     rep.check(ok, "C17-f", site_f, f"values = the whole `{pay}` buffer viewed as uint8", "; ".join(norm(x) for x in vals) or "no assignment")
     rep.floor("C17-f", 2)
+    rep.clause("C17-h", "the accelerator named through the public API maps to the configuration of the same name (row-for-row map) [rule shared with C15-c]")
+    from . import c15
+
+    rep.run_borrowed(c15, {'C15-c': 'C17-h'}, repo)
 
 
 def _is_u65(p):
